@@ -17,3 +17,44 @@ ASSUMPTIONS = list(TRUSTED_BASE)
 
 def run_extra(pid, tier, seed, repo, reg, cache):
     return None
+
+# ---------------------------------------------------------------------------------------------- claims (MANIFEST is generated from this)
+PROOF_NOTE = ("Trusted: nucsvc's VC generator and NuPy-core semantics, z3, Numba compiling each function faithfully, mathematical int32/int64 "
+              "arithmetic, hand-written relations (docs). Functions listed as arity-bounded are proved for the listed arities only (values unbounded); "
+              "bounded suites are run-time contract checks on enumerated scopes and are not counted as proved.")
+
+CLAIMED = {}
+NOT_APPLICABLE = {
+    "C15": "JIT-vs-interpreted and run-to-run equality relate two executions of the same source (and Numba's machine code to it); a function contract cannot express it (DESIGN 10). Its decidable fragment (problem-object frame) is checked under C13.",
+}
+
+
+def claim(pid, text, technique, note=PROOF_NOTE, level="other", explain=""):
+    CLAIMED[pid] = dict(text=text, technique=technique, note=note)
+    LEVEL[pid] = level
+    EXPLAIN[pid] = explain or text
+    NOT_APPLICABLE.pop(pid, None)
+
+
+for _p in ["C01", "C02", "C03", "C04", "C08", "C10", "C11", "C12", "C13", "C14", "C18", "C20"]:
+    NOT_APPLICABLE[_p] = "check under construction in this build (contracts not yet registered); see DESIGN.md section 4"
+
+claim("C05", "Generic propagator contract clauses P1 (contraction) and P2 (every supported tuple kept; inconsistency only when no tuple) as postconditions of each compute_domains_X, "
+      "discharged by z3 from VCs generated from the real source: unbounded-arity proofs (loop invariants) for the linear and min/max/and/dummy propagators, "
+      "arity-bounded proofs (unroll mode, values symbolic) for the counting, element and lexicographic propagators.",
+      "contract-based deductive verification (own AST->VC generator, z3); unroll-mode counterexamples replayed natively", level="other")
+claim("C06", "Clause P3 (a non-failing call that leaves a point leaves a tuple of the relation) with P2 (iff on ground inputs) on each compute_domains_X under contract.",
+      "contract-based deductive verification (own AST->VC generator, z3)", level="other")
+claim("C07", "Clause P4 (ENTAILMENT only if every tuple of the returned box satisfies the relation) on the entailing propagators, plus the flag-row contracts of cp_put, backtrack and the BC loop "
+      "(a flag is cleared only on ENTAILMENT, rows below the top are never touched, a new level inherits the row).",
+      "contract-based deductive verification (own AST->VC generator, z3)", level="other")
+claim("C09", "DomHeuristic interface contract (non-empty, disjoint, covering sub-ranges; other domains, lower levels and flag rows untouched; returned and recorded event masks cover every moved bound incl. GROUND) "
+      "proved for min_value, max_value, split_low, value, mid_value, min_cost; contracts of cp_put, backtrack, add_propagators; solve_one re-establishes the queue through add_propagators.",
+      "contract-based deductive verification (own AST->VC generator, z3)", level="proof")
+claim("C16", "One in-bounds obligation per subscript, slice, gather and reduction of every function under contract, proved from the well-formedness preconditions (wf_static, wf_dyn, parameter contracts).",
+      "contract-based deductive verification: generated bounds obligations", level="other")
+claim("C17", "Counter clauses as loop invariants/postconditions: BC (passes +1, filter calls = ghost call count, inconsistency = 1 iff result inconsistent, other slots untouched), backtrack (+1 iff success), "
+      "solve_one (solutions, choices, BC passes = 1 + choices + backtracks as a proved law of the loop; exact for plain BC in the #bc variant).",
+      "contract-based deductive verification with ghost call counters", level="proof")
+claim("C19", "Range obligations on every store into uint8/uint16/int16 arrays and bounds obligations on stack[top+1], stack[top+2]: discharged from the run-time guard in solve_one (IndexError) and H <= 256.",
+      "contract-based deductive verification: generated range obligations", level="other")
